@@ -16,7 +16,7 @@ import (
 	"deps.dev/util/semver"
 )
 
-var c08r2Names = []string{"a", "b", "c", "r"}
+var c08r2Names = []string{"a", "b", "c", "r", "d"} // target index 4 is the root package, 5 the optional fourth package
 var c08r2Specs = []string{"", "==D.0", ">=D.0", "<D.0", "!=D.0", "~=D.0", ">=D.0,<E.0", "<=D.0", ">=D.0rc1", ">D.0", "==D.*", "<=D.0rc1"}
 var c08r2Extras = []string{"", "x", "y", "x,y"}
 
@@ -105,7 +105,11 @@ func c08r2Build() *c08r2Universe {
 	if vParam("rv2") != 0 {
 		add(c05VK("r", "2.0"), []string{"q0"})
 	}
-	for pi := 0; pi < 3; pi++ {
+	pkgs := []int{0, 1, 2}
+	if vParam("np") == 4 {
+		pkgs = append(pkgs, 4)
+	}
+	for _, pi := range pkgs {
 		for vi := 0; vi < vParam("nv"+c08N[pi]); vi++ {
 			tag := c08N[pi] + c08N[vi]
 			ver := c08N[vParam("mj"+tag)] + ".0"
